@@ -25,8 +25,9 @@ def sh(cmd, **kw):
     return subprocess.run(cmd, shell=True, capture_output=True, text=True, **kw)
 
 
-res = {"dir": d, "time": time.strftime("%F %T"), "repo_head": sh("git -C /repo rev-parse --short HEAD").stdout.strip()}
-sh(f"git -C /repo worktree add --detach {wt} HEAD")
+BASE = meta.get("base_commit", "223586f")   # seeded patches are diffs against this commit of /repo
+res = {"dir": d, "time": time.strftime("%F %T"), "repo_head": sh("git -C /repo rev-parse --short HEAD").stdout.strip(), "base_commit": BASE}
+sh(f"git -C /repo worktree add --detach {wt} {BASE}")
 try:
     e2 = dict(env, PYTHONPATH=wt)
     r = sh(f"/venv/bin/python {d}/demo.py", env=e2, cwd=wt)
